@@ -1,4 +1,5 @@
 CONSTANT MaxSecs = 4
+CONSTANT RefOf <- RefMC
 CONSTANT Gen = TRUE
 SPECIFICATION Spec
 INVARIANT GenCfg
